@@ -530,6 +530,9 @@ class SimFS:
             t = io.TextIOWrapper(io.BufferedReader(raw, buffer_size=bs), encoding=encoding or "utf-8",
                                  errors=errors, newline=newline)
             t.mode = mode
+            cs = self.knobs.get("chunk")
+            if cs:
+                t._CHUNK_SIZE = cs
             return t
         if kind == "x" and q in self.files:
             self._err(errno.EEXIST, q)
